@@ -215,6 +215,8 @@ func vfStartConn(dir string) (*vfConn, *Config, error) {
 	return vfStartConnWith(conf), conf, nil
 }
 
+func vfPipe() (net.Conn, net.Conn) { return net.Pipe() }
+
 func vfStartConnWith(conf *Config) *vfConn {
 	server, client := net.Pipe()
 	c := &vfConn{client: client, done: make(chan error, 1)}
